@@ -40,6 +40,28 @@ def colSum [Add K] [Zero K] (n : Nat) (rows : List (List K)) : List K :=
 def blockRow [Zero K] (w cnt k : Nat) (c : List K) : List K :=
   zeros (k * w) ++ c ++ zeros ((cnt - 1 - k) * w)
 
+/-! ### numpy on matrices given as lists of rows (used by the generated `cqpt_to_cqmpt`, QGen/C08.lean) -/
+
+/-- `M.shape[1]` -/
+def matWidth (M : List (List K)) : Nat := match M with | r :: _ => r.length | [] => 0
+/-- `M[:, :k]` -/
+def colsTo (k : Nat) (M : List (List K)) : List (List K) := M.map (List.take k)
+/-- `M[:, k:]` -/
+def colsFrom (k : Nat) (M : List (List K)) : List (List K) := M.map (List.drop k)
+/-- `-M` -/
+def negMat [Neg K] (M : List (List K)) : List (List K) := M.map lneg
+/-- `np.zeros((r, c))` -/
+def zerosMat [Zero K] (r c : Nat) : List (List K) := List.replicate r (zeros c)
+/-- `np.hstack([A, B])` -/
+def hstack2 (A B : List (List K)) : List (List K) := List.zipWith (· ++ ·) A B
+/-- `np.hstack([D] * k + [E])` -/
+def hstackRep (k : Nat) (D E : List (List K)) : List (List K) := List.zipWith (fun d e => tile k d ++ e) D E
+/-- `block_diag(*([C] * k))`: `k` copies of `C` on the diagonal -/
+def blockDiagRep [Zero K] (k : Nat) (C : List (List K)) : List (List K) :=
+  (List.range k).flatMap fun i => C.map fun c => zeros (i * matWidth C) ++ c ++ zeros ((k - 1 - i) * matWidth C)
+/-- `M.T[j]` (IndexError ⇒ `none`) -/
+def colAt? (j : Nat) (M : List (List K)) : Option (List K) := M.mapM (·[j]?)
+
 /-! ## the object built from a variable vector (`generate_from_var`, both parametrisations) -/
 
 /-- `convert_var_to_vec`: `np.insert(var, 0, 1/np.sqrt(dim))` -/
@@ -227,6 +249,24 @@ def qmptCoeffs [Mul K] [Neg K] [Zero K] (flag : Bool) (m : Nat) (states : List (
     qmptSched flag m rho povm
   pure (mkCoeffs per)
 
+/-! ## decoding a schedule: which items name the tester state / tester POVM -/
+
+/-- `schedule[k][1]` on the list of the items' indices; negative `k` counts from the end (Python) -/
+def itemAt (sched : List Nat) (k : Int) : Option Nat :=
+  if 0 ≤ k then sched[k.toNat]? else
+    if (-k).toNat ≤ sched.length then sched[sched.length - (-k).toNat]? else none
+
+/-- the pair (tester state index, tester POVM index) the coefficient loops read from one schedule
+(`0` where the class has no such tester): QST `schedule[-1][1]` is the POVM; POVMT `schedule[0][1]` the state;
+QPT / QMPT `schedule[0][1]` the state and `schedule[2][1]` the POVM -/
+def schedPair (kind : String) (sched : List Nat) : Option (Nat × Nat) :=
+  match kind with
+  | "qst" => do let j ← itemAt sched (-1); pure (0, j)
+  | "povmt" => do let i ← itemAt sched 0; pure (i, 0)
+  | "qpt" => do let i ← itemAt sched 0; let j ← itemAt sched 2; pure (i, j)
+  | "qmpt" => do let i ← itemAt sched 0; let j ← itemAt sched 2; pure (i, j)
+  | _ => none
+
 /-! ## `calc_prob_dists` -/
 
 inductive Err
@@ -376,6 +416,12 @@ def handle (args : List String) : Option String :=
       match cs with
       | none => some "err index"
       | some cs => some (showDists (calcProbDists eps scheds.length cs var))
+  -- schedpair kind i0,i1,…  →  (tester state index, tester povm index) read from a schedule's item indices
+  | ["schedpair", kind, sched] => do
+      let sched ← parseList? parseNat? sched
+      match schedPair kind sched with
+      | some (i, j) => some s!"ok {i}:{j}"
+      | none => some "err index"
   -- probdist1 … var i  →  calc_prob_dist(qope, i)
   | ["probdist1", kind, flag, r, m, eps, states, povms, scheds, var, i] => do
       let flag ← parseBool? flag; let r ← parseRat? r; let m ← parseNat? m; let eps ← parseRat? eps
